@@ -6,6 +6,7 @@ from ..cfg import build_cfg, build_rd, node_defs, names_used
 from ..astutil import short, call_name
 from ..report import fkey
 from . import prov as P
+from .prov import MUTATORS
 from .common import *
 
 # Exception table for A1: persistent writes on a slice that are legitimate although they are neither a
@@ -362,6 +363,24 @@ def _enclosing_loop_iters(fn):
     return out
 
 
+def _own_stmts(fn_node):
+    out = []
+
+    def rec(body):
+        for st in body:
+            out.append(st)
+            if isinstance(st, (ast.FunctionDef, ast.AsyncFunctionDef, ast.ClassDef)):
+                continue
+            for f in ('body', 'orelse', 'finalbody'):
+                b = getattr(st, f, None)
+                if isinstance(b, list) and b and isinstance(b[0], ast.stmt):
+                    rec(b)
+            for h in getattr(st, 'handlers', []):
+                rec(h.body)
+    rec(fn_node.body)
+    return out
+
+
 def _param_leaves(fn, expr, at, rd):
     """Parameters (and other entry-defined names) the value of expr at node `at` depends on: closure of the
     reaching definitions, through the free variables of nested functions that are called, and through the
@@ -378,9 +397,45 @@ def _param_leaves(fn, expr, at, rd):
             if isinstance(c, ast.Call) and isinstance(c.func, ast.Name) and c.func.id in frees:
                 out |= frees[c.func.id]
         return out
+    # in-place mutations of a local (x[k] = v, x.append(v), x[k].append(v), x.update(v)): what is put in is part of
+    # what x holds afterwards (flow-insensitive over-approximation)
+    muts = {}
+    if not isinstance(fn.node, ast.Lambda):
+        for st in _own_stmts(fn.node):
+            tgt, vals = None, []
+            if isinstance(st, ast.Assign) and isinstance(st.targets[0], ast.Subscript):
+                tgt, vals = st.targets[0], [st.value, st.targets[0].slice]
+            elif isinstance(st, ast.AugAssign) and isinstance(st.target, ast.Subscript):
+                tgt, vals = st.target, [st.value, st.target.slice]
+            elif isinstance(st, ast.Expr) and isinstance(st.value, ast.Call) and \
+                    isinstance(st.value.func, ast.Attribute) and st.value.func.attr in MUTATORS:
+                tgt, vals = st.value.func.value, list(st.value.args) + [k.value for k in st.value.keywords]
+            if tgt is None:
+                continue
+            base = tgt
+            extra = []
+            while isinstance(base, (ast.Subscript, ast.Attribute)):
+                if isinstance(base, ast.Subscript):
+                    extra.append(base.slice)
+                base = base.value
+            if isinstance(base, ast.Name):
+                muts.setdefault(base.id, []).append((st, vals + extra))
+    mut_seen = set()
     work = [(n, at) for n in uses(expr)]
     while work:
         nm, node = work.pop()
+        if nm in muts and nm not in mut_seen:
+            mut_seen.add(nm)
+            for st, vals in muts[nm]:
+                nd = rd.cfg.node_of(st) if hasattr(rd, 'cfg') else None
+                if nd is None:
+                    continue
+                for e in vals:
+                    for n2 in uses(e):
+                        work.append((n2, nd))
+                for it in loops.get(id(st), []):
+                    for n2 in uses(it):
+                        work.append((n2, nd))
         for d in rd.defs_of(nm, node):
             if (nm, d.id) in seen:
                 continue
@@ -473,4 +528,39 @@ def check_decode_memos(ctx, rule='A2p', floor=3):
     n = check_memo_functions(ctx, [f for f in ctx.prog.all_functions() if f.module.name.startswith(
         ('adsg_core.optimization.graph_processor', 'adsg_core.optimization.hierarchy'))], rule=rule)
     ctx.floor(rule, floor, 'memoising stores in the graph processor / hierarchy analyzers')
+    return n
+
+
+def check_disk_memos(ctx, functions, rule='A2d', writers=('_write_to_cache',), readers=('_load_from_cache',)):
+    """Functions that keep a result on disk (`x = load(P)` ... `write(P, V)`): every parameter the written value
+    depends on also feeds the path P - otherwise a call with one argument value leaves an entry that calls with
+    other values (or with none) read back as theirs."""
+    n = 0
+    for fn in functions:
+        if isinstance(fn.node, ast.Lambda):
+            continue
+        wcalls = [c for c in walk_fn(fn) if isinstance(c, ast.Call) and call_name(c) in writers and len(c.args) >= 2]
+        if not wcalls:
+            continue
+        rcalls = [c for c in walk_fn(fn) if isinstance(c, ast.Call) and call_name(c) in readers and c.args]
+        cfg = build_cfg(fn)
+        rd = build_rd(fn)
+        for c in wcalls:
+            node = next((nd for nd in cfg.nodes if nd.ast is not None and nd.kind in ('stmt', 'test') and
+                         any(x is c for x in ast.walk(nd.ast))), None)
+            if node is None:
+                continue
+            kd = _param_leaves(fn, c.args[0], node, rd)
+            vd = _param_leaves(fn, c.args[1], node, rd)
+            recv = {fn.params[0]} if fn.params and fn.params[0] in ('self', 'cls') else set()
+            missing = sorted(vd - kd - recv)
+            n += 1
+            ctx.touch(fn)
+            ctx.ob(rule, fkey(fn, rule, f'{call_name(c)}({norm(c.args[0])})'), not missing,
+                   f'{fn.module.relpath}:{c.lineno}',
+                   f'{fn.qualname} stores `{norm(c.args[1])}` on disk under `{norm(c.args[0])}`'
+                   f'{" and reads it back" if rcalls else ""}: every parameter the stored value depends on feeds '
+                   f'the path', f'path <- {sorted(kd)}, value <- {sorted(vd)}' if not missing else
+                   f'the stored value depends on parameter(s) {missing} that do not feed the path (path <- {sorted(kd)}): '
+                   f'a call restricted by them leaves a partial entry that unrestricted calls read back as complete')
     return n
